@@ -152,9 +152,10 @@ def mergePeers (ops : Ops V) : Option V → List (Option V) → Option V
   | none, some p :: rest => mergePeers ops (some p) rest
   | some m, some p :: rest => mergePeers ops (some (ops.merge m p)) rest
 
-/-- handleGet.  NOTE: the coordinated branch writes the merged value into the store without
-    looking at the tombstones. -/
+/-- handleGet.  A tombstoned key answers "no data" without consulting peers (fix eb69dd7);
+    otherwise the coordinated branch writes the merged value into the store. -/
 def handleGet (ops : Ops V) (r : Rep V) (k : Nat) (peers : Option (List (Option V))) : Rep V × List (Out V) :=
+  if ahas r.tombs k then (r, [.value none]) else
   let data := aget r.store k
   match peers with
   | none => (r, [.value data])
